@@ -317,6 +317,10 @@ class Producer(object):
                     "Exhausted attempt quota of {}".format(self._max_attempts),
                 )
             yield self.client.load_metadata_for_topics(topic)
+            if self.stopping:
+                # stop() cancelled the lookup.  The client reports a cancelled
+                # load as a plain result, so the cancellation ends here.
+                raise tid_CancelledError()
             if not self.client.metadata_error_for_topic(topic):
                 break
             self._req_attempts += 1
